@@ -100,6 +100,10 @@ def apply_fault(cfg, fault, draw):
         n = draw(st.integers(1, 3))
         wrong = draw(st.sampled_from([c for c in (0, 1, 2, 3, 4) if c != n]))
         oc = {'count': wrong, 'operand_sets': {'list': [sname] * n}}
+        if draw(st.booleans()):
+            # a listed combination next to the operand sets does not excuse the mismatch
+            oc['specific_operands'] = {'sp': {'list': {f'n{i}': {'type': 'numeric', 'argument': {'size': 8, 'byte_align': True}}
+                                                       for i in range(wrong)}}}
         if fault == 'count-mismatch':
             cfg['instructions']['zzq'] = {'bytecode': {'value': 1, 'size': 8}, 'operands': oc}
         else:
@@ -172,7 +176,12 @@ def _cases(draw, tier):
         op = draw(st.sampled_from(OPS))
         rv = draw(st.sampled_from(ISA_VERSIONS + [ver]))
         req = f'#require "{req_name} {op} {rv}"'
-    return {'kind': 'require', 'isa': cfg, 'fmt': fmt, 'require': req, 'req_name': req_name, 'op': op, 'req_version': rv}
+    case = {'kind': 'require', 'isa': cfg, 'fmt': fmt, 'require': req, 'req_name': req_name, 'op': op, 'req_version': rv}
+    if draw(st.integers(0, 2)) == 0:
+        # an earlier, satisfied requirement for the same language must not excuse a later one
+        case['first'] = draw(st.sampled_from([f'#require "{name}"', f'#require "{name} >= 0.0.1"', f'#require "{name} == {ver}"']))
+        case['second_in_include'] = draw(st.booleans())
+    return case
 
 
 def strategy(tier):
@@ -211,6 +220,13 @@ def execute(case, ctx):
             tag = 'minversion:unusual-spelling'
     elif kind == 'require':
         src = case['require'] + '\n.byte 1\n'
+        extra_files = {}
+        if case.get('first'):
+            if case.get('second_in_include'):
+                src = case['first'] + '\n.byte 1\n#include "lib.asm"\n'
+                extra_files['lib.asm'] = case['require'] + '\n.byte 2\n'
+            else:
+                src = case['first'] + '\n' + src
         isa_name = cfg['general']['identifier']['name'].strip().replace(' ', '_')
         ok = case['req_name'] == isa_name
         if ok and case['op'] is not None:
@@ -222,8 +238,11 @@ def execute(case, ctx):
             except ValueError:
                 ok = None
         expect = None if ok is None else ('accepted' if ok else 'rejected')
-        tag = 'require:' + ('name-mismatch' if case['req_name'] != isa_name else str(case['op']))
-    res = runner.run_forked(['compile', '-c', fname, '-o', 'out.bin', 'p.asm'], {fname: text, 'p.asm': src})
+        tag = 'require:' + ('name-mismatch' if case['req_name'] != isa_name else str(case['op'])) + ('/after-an-earlier-require' if case.get('first') else '')
+    files = {fname: text, 'p.asm': src}
+    if kind == 'require':
+        files.update(extra_files)
+    res = runner.run_forked(['compile', '-c', fname, '-o', 'out.bin', 'p.asm'], files)
     detail = {'kind': kind, 'what': tag, 'config_file': fname, 'config': text[:6000], 'source': src, 'expected': expect,
               'run': res.brief()}
     findings = []
